@@ -15,11 +15,11 @@ TARGET = dict(
     execs=[dict(name="merge", harness="harness/C16_psi_merge.c", repo=LIBUPIPE + lib("upipe-ts", only=_TS), engine=MEMFIX, share=1.0),
            dict(name="split", harness="harness/C16_psi_split.c", repo=LIBUPIPE + lib("upipe-ts", only=_TS), engine=MEMFIX, share=1.0, case_scale=1.0),
            dict(name="join", harness="harness/C16_psi_join.c", repo=LIBUPIPE + lib("upipe-ts", only=_TS), engine=MEMFIX, share=1.0, case_scale=0.7)],
-    quick=dict(cases=6500, budget=20), thorough=dict(cases=400000, budget=200),
+    quick=dict(cases=9000, budget=20), thorough=dict(cases=400000, budget=150),
 )
 META = dict(
     technique="property-based testing (rapidcheck tapes -> C executors) of the three PSI pipes compiled from the repository against an independent section packer / parser / filter matcher, with a recording sink and probe, under ASan",
     text="Merger: generated sections are laid into TS payloads by a reference packer written from ISO 13818-1 (pointer fields, back-to-back sections, stuffing, cuts inside the 3-octet header, lead-in) and fed as ts_decaps would (unit start / discontinuity attributes; single, windowed or segmented blocks); the recorded output must be the generated sections, in order, once, octet for octet; with flagged discontinuities, dropped payloads or forbidden headers every section lying wholly after the next unit start must come out and nothing that is not a section of the stream; with unflagged corruption only self-consistency of the outputs. Splitter: outputs with filter/mask pairs are added and removed between sections; each section must reach exactly the outputs a reference matcher selects, unmodified. Joiner: inputs added and removed; multiset of outputs == union of inputs, per-input order kept. Sampling.",
     design_ref="DESIGN.md section 6, C16",
-    note="Decided for the repository sources compiled against the stand-in psi.h. Section totals range over 3..4096 (section_length <= 4093, ISO 2.4.4.11); 4094/4095 are generated only as forbidden headers. Behaviour after unflagged loss is not required to resynchronise (the merger trusts the discontinuity attribute by design).",
+    note="Named exclusion unflagged-loss in the merge executor: a loss NOT followed by the discontinuity attribute is constructed only with --no-exclude (tape replays/C16/open/merge-unflagged-loss.tape, candidate repair pending/C16-merge-unit-start-resync.patch). Decided for the repository sources compiled against the stand-in psi.h. Section totals range over 3..4096 (section_length <= 4093, ISO 2.4.4.11); 4094/4095 are generated only as forbidden headers. Behaviour after unflagged loss is not required to resynchronise (the merger trusts the discontinuity attribute by design).",
 )
